@@ -170,15 +170,43 @@ def judge : Judge := liftJudge fun input obs => do
     let modelUrlLists := modelLists.map (fun l => l.map (·.url))
     let winModel := trs.all (fun (a, b, u) => windowOK modelUrlLists a b u)
     let winSpec := trs.all (fun (a, b, u) => windowOK urlLists a b u)
+    -- selections made between the reports (a pool with the case's policy): each must come from the list of
+    -- the LAST report (with its last weights); weightedRandom never a non-positive weight when one is positive
+    let obsSel : List (List String) := match obs.getObjVal? "sel" with
+      | .ok (.arr a) => a.toList.map (fun l => match l.getArr? with
+          | .ok x => x.toList.filterMap (fun j => j.getStr?.toOption) | .error _ => [])
+      | _ => []
+    let selOK (ls : List (List Server)) : Bool :=
+      (List.range obsSel.length).all fun i =>
+        let cur := ls.getD i []
+        let shown := cur.map showSrv
+        (obsSel.getD i []).all fun e => if cur.isEmpty then e == "<nil>" else shown.contains e
+    let wSelOK (ls : List (List Server)) : Bool :=
+      lb.policy != .weightedRandom ||
+      (List.range obsSel.length).all fun i =>
+        let cur := ls.getD i []
+        !(cur.any (fun s => decide (s.weight > 0))) ||
+          (obsSel.getD i []).all fun e => (cur.filter (fun s => decide (s.weight > 0))).any (fun s => showSrv s == e)
+    let histLists : List (List Server) :=
+      (List.range (gens.length + 1)).map (fun i => afterReports sps (gens.take i))
+    let selModel := selOK histLists && wSelOK histLists && (obsSel.isEmpty || obsSel.length == gens.length + 1)
+    let selSpec := selOK specLists && wSelOK specLists
+    let weightOnly := (List.range (gens.length - 1)).any fun i =>
+      let a := currentList sps (gens.getD i []); let b := currentList sps (gens.getD (i + 1) [])
+      a != b && a.map (·.url) == b.map (·.url)
     let fallback := (gens.map (useService sps)).any (fun l => l == servers)
     let spanning := trs.any (fun (a, b, _) => a != b)
-    pure { agree := agreeLists && winModel, spec := specListsOK && winSpec,
+    pure { agree := agreeLists && winModel && selModel, spec := specListsOK && winSpec && selSpec,
            expected := Json.arr (modelLists.map (fun l => Json.arr ((sortS (l.map showSrv)).map Json.str).toArray)).toArray,
            tags := baseTags ++ [s!"gens={gens.length}"] ++ (if fallback then ["fallback-static"] else [])
              ++ (if spanning then ["selection-spans-swap"] else [])
-             ++ (if sps.serverTags.isEmpty then ["no-server-tags"] else []),
+             ++ (if sps.serverTags.isEmpty then ["no-server-tags"] else [])
+             ++ (if weightOnly then ["report:weights-only-change"] else []),
            nontrivial := gens.length ≥ 1 && !trs.isEmpty,
-           sig := if !specListsOK then "useService:wrong-list" else if !winSpec then "swap:server-outside-current-lists" else "" }
+           sig := if !specListsOK then "useService:wrong-list"
+             else if !selOK specLists then "useService:selection-not-from-last-report"
+             else if !wSelOK specLists then "weightedRandom:zero-weight-chosen:after-report"
+             else if !winSpec then "swap:server-outside-current-lists" else "" }
   else -- handle
     let sps : PoolSpec := ⟨optStr input "serviceName", [], servers, policyS⟩
     let validObs := optBool obs "valid"
